@@ -64,6 +64,27 @@ pub fn search(seed: u64, budget: &Budget, thorough: bool) -> (u64, Option<(Strin
             }
         }
     }
+    // border-rich patterns (KMP fallback chains, BNDM/BOM factor structure): all binary patterns up to length 9, ternary up to 6,
+    // against texts built from overlapping copies of the pattern
+    for (alpha, maxlen) in [(&b"ab"[..], 9usize), (&b"abc"[..], 6usize)].iter() {
+        let a = alpha.len();
+        for pl in 2..=*maxlen {
+            let total = (a as u64).pow(pl as u32);
+            for code in 0..total {
+                let mut c = code;
+                let p: Vec<u8> = (0..pl).map(|_| { let x = alpha[(c % a as u64) as usize]; c /= a as u64; x }).collect();
+                let mut texts = vec![];
+                for ov in 0..pl { let mut t = p.clone(); t.extend_from_slice(&p[ov..]); t.extend_from_slice(&p[..pl - ov]); t.extend_from_slice(&p); texts.push(t); }
+                for algo in ALGOS.iter() {
+                    tried += 1;
+                    if let Err(e) = one(algo, &p, &texts) {
+                        for t in &texts { if one(algo, &p, &[t.clone()]).is_err() { return (tried, Some((fmt(algo, &p, &[t.clone()]), e))); } }
+                        return (tried, Some((fmt(algo, &p, &texts), e)));
+                    }
+                }
+            }
+        }
+    }
     // boundary pattern lengths for the bit-parallel matchers, high bytes
     let mut rng = Rng::new(seed);
     for &pl in &[31usize, 32, 33, 63, 64] {
